@@ -618,6 +618,20 @@ class Interp:
         for o_i, p in zip(op.outputs, parts):
             self.put(o_i, p, 0, [x_i], mode="move")
 
+    def op_SPLIT_V(self, op):
+        x_i = op.inputs[0]
+        x = self.get(x_i)
+        ax = int(np.atleast_1d(self.get(op.inputs[2]))[0])
+        sizes = [int(v) for v in np.atleast_1d(self.get(op.inputs[1]))]
+        if sizes.count(-1) == 1:
+            sizes[sizes.index(-1)] = x.shape[ax] - (sum(sizes) + 1)
+        parts = np.split(x, np.cumsum(sizes)[:-1], axis=ax)
+        for o_i, p in zip(op.outputs, parts):
+            self.put(o_i, p, 0, [x_i], mode="move")
+
+    def op_SHAPE(self, op):
+        self.put(op.outputs[0], np.array(self.m.tensors[op.inputs[0]].shape, np.int64), 0, [])
+
     def op_STRIDED_SLICE(self, op):
         x_i = op.inputs[0]
         o = op.options[1] if op.options else {}
